@@ -121,7 +121,7 @@ static void on_access(const char* kind, const std::string& path) {
   }
 }
 
-// returns: 0 none, 1 absent, 2 empty, 3 eacces, 4 readfail
+// returns: 0 none, 1 absent, 2 empty, 3 eacces, 4 readfail, 5 emfile (opens only)
 static int file_fault(const std::string& path) {
   if (!active()) {
     return 0;
@@ -136,6 +136,9 @@ static int file_fault(const std::string& path) {
       }
       if (ff.mode == "eacces") {
         return 3;
+      }
+      if (ff.mode == "emfile") {
+        return 5; // the open fails although the file or directory is there (EMFILE: says nothing about the cgroup)
       }
       if (ff.mode == "readfail") {
         return 4; // the open succeeds, every read(2) on the descriptor fails (EISDIR): kernfs ENODEV / EOPNOTSUPP / EIO stand-in
@@ -589,6 +592,15 @@ static int open_common(int dirfd, const char* path, int flags, mode_t mode, cons
     }
     if (ff == 3) {
       errno = EACCES;
+      return -1;
+    }
+    if (ff == 5) {
+      Json::Value e;
+      e["ev"] = "open_fault";
+      e["path"] = rel_to_root(full);
+      e["errno"] = "EMFILE";
+      ev(e);
+      errno = EMFILE;
       return -1;
     }
     if (ff == 2) {
